@@ -284,7 +284,7 @@ Lemma do_read_spec s c rest :
   t_idgen (d_tabs s) + N.of_nat (length (ck_groups c)) < two32 ->
   exists nu ni res err t',
     do_read s c rest =
-      (mkD (d_var s) (d_cap s) t'
+      (mkD (d_var s) (d_subs s) (d_cap s) t'
            (mkB (b_up (d_bufs s) ++ nu) (b_id (d_bufs s) ++ ni) (b_res (d_bufs s) ++ res_pair res) (b_ackid (d_bufs s)))
            rest (d_metabox s) (d_closed s),
        [ORead (Some c) res err nu ni]) /\
@@ -553,7 +553,7 @@ Proof.
     + apply rel_quiet; reflexivity.
   - (* ArriveMeta *)
     destruct (d_closed s); [cbn [fst snd]; auto using rel_refl|].
-    destruct (N.of_nat (length (d_metabox s)) <? d_cap s); [|cbn [fst snd]; auto using rel_refl].
+    destruct (subscribed _ _ && _); [|cbn [fst snd]; auto using rel_refl].
     cbn [fst snd]. unfold set_metabox. split; [exact Hinv|]. split; [exact Bs|]. apply rel_quiet; reflexivity.
   - (* Read *)
     destruct (d_closed s && (v_strict (d_var s) || negb pick)).
@@ -632,10 +632,10 @@ Proof.
     repeat apply conj; auto. lia.
 Qed.
 
-Lemma init_ok v cap pre evs :
+Lemma init_ok v fl cap pre evs :
   small_history pre evs ->
-  dinv (dinit v cap pre) /\ budget (dinit v cap pre) evs /\
-  Tu (dinit v cap pre) = [] /\ Ti (dinit v cap pre) = prereg_table 0 pre.
+  dinv (dinit v fl cap pre) /\ budget (dinit v fl cap pre) evs /\
+  Tu (dinit v fl cap pre) = [] /\ Ti (dinit v fl cap pre) = prereg_table 0 pre.
 Proof.
   intros [H1 H2]. unfold dinit, Tu, Ti, dinv, budget.
   cbn [d_tabs d_bufs d_inbox b_up b_id b_res b_ackid wt fold_right].
@@ -650,21 +650,21 @@ Proof.
 Qed.
 
 (* the statement every run satisfies, from the initial state *)
-Lemma run_init v cap pre evs :
+Lemma run_init v fl cap pre evs :
   small_history pre evs ->
-  let s0 := dinit v cap pre in
+  let s0 := dinit v fl cap pre in
   dinv (fst (drun s0 evs)) /\ rel s0 (fst (drun s0 evs)) (snd (drun s0 evs)).
 Proof.
-  intros H. destruct (init_ok v cap pre evs H) as (H1 & H2 & _). now apply run_main.
+  intros H. destruct (init_ok v fl cap pre evs H) as (H1 & H2 & _). now apply run_main.
 Qed.
 
 (* ---------- C03 resolution ---------- *)
 
-Lemma resolution v cap pre evs :
+Lemma resolution v fl cap pre evs :
   small_history pre evs ->
-  resolved [] (prereg_table 0 pre) (snd (drun (dinit v cap pre) evs)).
+  resolved [] (prereg_table 0 pre) (snd (drun (dinit v fl cap pre) evs)).
 Proof.
-  intros H. destruct (init_ok v cap pre evs H) as (H1 & H2 & H3 & H4).
+  intros H. destruct (init_ok v fl cap pre evs H) as (H1 & H2 & H3 & H4).
   destruct (run_main evs _ H1 H2) as (_ & R). pose proof (r_res _ _ _ R) as Hr. now rewrite H3, H4 in Hr.
 Qed.
 
@@ -712,13 +712,13 @@ Proof.
     destruct Hr as [_ Hr]. rewrite !app_assoc. apply IH; assumption.
 Qed.
 
-Lemma delivered_known v cap pre evs c rc err nu ni :
+Lemma delivered_known v fl cap pre evs c rc err nu ni :
   small_history pre evs ->
-  let outs := snd (drun (dinit v cap pre) evs) in
+  let outs := snd (drun (dinit v fl cap pre) evs) in
   In (ORead (Some c) (Some rc) err nu ni) outs ->
   aliases_known (minted_ups outs) (prereg_table 0 pre ++ minted_ids outs) c /\ err = 0.
 Proof.
-  intros H outs Hin. pose proof (resolution v cap pre evs H) as Hr.
+  intros H outs Hin. pose proof (resolution v fl cap pre evs H) as Hr.
   exact (resolved_in c rc err nu ni _ _ _ Hr Hin).
 Qed.
 
@@ -734,7 +734,8 @@ Fixpoint arrived_chunks (evs : list dev) : list chunk :=
 Lemma do_read_shape s c rest :
   exists res err nu ni s',
     do_read s c rest = (s', [ORead (Some c) res err nu ni]) /\
-    d_inbox s' = rest /\ d_metabox s' = d_metabox s /\ d_closed s' = d_closed s /\ d_cap s' = d_cap s.
+    d_inbox s' = rest /\ d_metabox s' = d_metabox s /\ d_closed s' = d_closed s /\ d_cap s' = d_cap s /\
+    d_subs s' = d_subs s.
 Proof.
   unfold do_read.
   destruct (resolve_up _ _); [destruct (resolve_groups _ _)|]; repeat eexists.
@@ -746,20 +747,21 @@ Lemma flush_frame sent s :
   consumed_of (snd (flush sent s)) = [] /\ metas_of (snd (flush sent s)) = [] /\
   metaacks_of (snd (flush sent s)) = [] /\
   d_inbox (fst (flush sent s)) = d_inbox s /\ d_metabox (fst (flush sent s)) = d_metabox s /\
-  d_closed (fst (flush sent s)) = d_closed s /\ d_cap (fst (flush sent s)) = d_cap s.
+  d_closed (fst (flush sent s)) = d_closed s /\ d_cap (fst (flush sent s)) = d_cap s /\
+  d_subs (fst (flush sent s)) = d_subs s.
 Proof.
   flush_cases s;
-    cbn [fst snd consumed_of metas_of metaacks_of set_bufs d_inbox d_metabox d_closed d_cap]; repeat split.
+    cbn [fst snd consumed_of metas_of metaacks_of set_bufs d_inbox d_metabox d_closed d_cap d_subs]; repeat split.
 Qed.
 
 Lemma fifo_order : forall evs s q qm,
   (d_closed s = false -> q = N.of_nat (length (d_inbox s)) /\ qm = N.of_nat (length (d_metabox s))) ->
-  keeps_up (d_cap s) q qm (d_closed s) evs = true ->
+  keeps_up (d_subs s) (d_cap s) q qm (d_closed s) evs = true ->
   let r := drun s evs in
   d_inbox s ++ arrived_chunks evs = consumed_of (snd r) ++ d_inbox (fst r) /\
-  map meta_pub (d_metabox s) ++ map meta_pub (arrived_metas evs) =
+  map meta_pub (d_metabox s) ++ map meta_pub (arrived_metas (d_subs s) evs) =
     returned_metas (metas_of (snd r)) ++ map meta_pub (d_metabox (fst r)) /\
-  map m_req (d_metabox s) ++ map m_req (arrived_metas evs) =
+  map m_req (d_metabox s) ++ map m_req (arrived_metas (d_subs s) evs) =
     metaacks_of (snd r) ++ map m_req (d_metabox (fst r)).
 Proof.
   induction evs as [|e evs IH]; intros s q qm Hq Hk.
@@ -771,18 +773,21 @@ Proof.
       apply andb_true_iff in Hk as [Hk1 Hk]. apply andb_true_iff in Hk1 as [Hc Hlt].
       apply negb_true_iff in Hc. destruct (Hq Hc) as [-> ->]. rewrite Hc in *. rewrite Hlt.
       cbn [fst snd app]. unfold set_inbox. rewrite ?Hc.
-      specialize (IH (mkD (d_var s) (d_cap s) (d_tabs s) (d_bufs s) (d_inbox s ++ [c]) (d_metabox s) false)
+      specialize (IH (mkD (d_var s) (d_subs s) (d_cap s) (d_tabs s) (d_bufs s) (d_inbox s ++ [c]) (d_metabox s) false)
                      (N.of_nat (length (d_inbox s)) + 1) (N.of_nat (length (d_metabox s)))).
-      cbn [d_closed d_cap d_inbox d_metabox] in IH.
+      cbn [d_closed d_cap d_subs d_inbox d_metabox] in IH.
       destruct IH as (I1 & I2 & I3); [intros _; rewrite app_length; cbn [length]; split; lia | exact Hk |].
       rewrite <- app_assoc in I1. cbn [app] in I1. auto.
     + (* ArriveMeta *)
-      apply andb_true_iff in Hk as [Hk1 Hk]. apply andb_true_iff in Hk1 as [Hc Hlt].
-      apply negb_true_iff in Hc. destruct (Hq Hc) as [-> ->]. rewrite Hc in *. rewrite Hlt.
+      apply andb_true_iff in Hk as [Hc Hk]. apply negb_true_iff in Hc.
+      destruct (Hq Hc) as [-> ->]. rewrite Hc in *.
+      destruct (subscribed (d_subs s) (m_src m)) eqn:Esub; cbn [andb].
+      2:{ cbn [fst snd app]. apply (IH s (N.of_nat (length (d_inbox s))) (N.of_nat (length (d_metabox s)))); [intros _; auto | rewrite Hc; exact Hk]. }
+      apply andb_true_iff in Hk as [Hlt Hk]. rewrite Hlt.
       cbn [fst snd app]. unfold set_metabox. rewrite ?Hc.
-      specialize (IH (mkD (d_var s) (d_cap s) (d_tabs s) (d_bufs s) (d_inbox s) (d_metabox s ++ [m]) false)
+      specialize (IH (mkD (d_var s) (d_subs s) (d_cap s) (d_tabs s) (d_bufs s) (d_inbox s) (d_metabox s ++ [m]) false)
                      (N.of_nat (length (d_inbox s))) (N.of_nat (length (d_metabox s)) + 1)).
-      cbn [d_closed d_cap d_inbox d_metabox] in IH.
+      cbn [d_closed d_cap d_subs d_inbox d_metabox] in IH.
       destruct IH as (I1 & I2 & I3); [intros _; rewrite app_length; cbn [length]; split; lia | exact Hk |].
       rewrite map_app, <- app_assoc in I2, I3. cbn [app map] in I2, I3. auto.
     + (* Read *)
@@ -794,9 +799,9 @@ Proof.
         destruct (IH s (q - 1) qm) as (I1 & I2 & I3); [|exact Hk|].
         { intros Hc. destruct (Hq Hc) as [-> ->]. rewrite ?Ein. cbn [length]. split; lia. }
         rewrite Ein in I1. cbn [app] in I1. auto. }
-      destruct (do_read_shape s c rest) as (res & err & nu & ni & s' & -> & S1 & S2 & S3 & S4).
+      destruct (do_read_shape s c rest) as (res & err & nu & ni & s' & -> & S1 & S2 & S3 & S4 & S5).
       cbn [fst snd app consumed_of metas_of metaacks_of].
-      specialize (IH s' (q - 1) qm). rewrite S1, S2, S3, S4 in IH.
+      specialize (IH s' (q - 1) qm). rewrite S1, S2, S3, S4, S5 in IH.
       destruct IH as (I1 & I2 & I3); [|exact Hk|].
       { intros Hc. destruct (Hq Hc) as [-> ->]. rewrite ?Ein. cbn [length]. split; lia. }
       rewrite <- I1. auto.
@@ -810,71 +815,71 @@ Proof.
         { intros Hc. destruct (Hq Hc) as [-> ->]. rewrite ?Ein. cbn [length]. split; lia. }
         rewrite Ein in I2, I3. cbn [app map] in I2, I3. auto. }
       cbn [fst snd app consumed_of metas_of returned_metas metaacks_of map]. unfold set_metabox.
-      specialize (IH (mkD (d_var s) (d_cap s) (d_tabs s) (d_bufs s) (d_inbox s) rest (d_closed s)) q (qm - 1)).
-      cbn [d_closed d_cap d_inbox d_metabox] in IH.
+      specialize (IH (mkD (d_var s) (d_subs s) (d_cap s) (d_tabs s) (d_bufs s) (d_inbox s) rest (d_closed s)) q (qm - 1)).
+      cbn [d_closed d_cap d_subs d_inbox d_metabox] in IH.
       destruct IH as (I1 & I2 & I3); [|exact Hk|].
       { intros Hc. destruct (Hq Hc) as [-> ->]. rewrite ?Ein. cbn [length]. split; lia. }
       rewrite <- I2, <- I3. auto.
     + (* AckTick *)
       destruct (d_closed s) eqn:Ec.
       { cbn [fst snd app]. apply (IH s q qm); [rewrite Ec; discriminate | rewrite Ec; exact Hk]. }
-      destruct (flush_frame sent s) as (E2 & E3 & E4 & E5 & E6 & E7 & E8).
+      destruct (flush_frame sent s) as (E2 & E3 & E4 & E5 & E6 & E7 & E8 & E9).
       rewrite consumed_of_app, metas_of_app, metaacks_of_app, E2, E3, E4. cbn [app].
-      rewrite <- E5, <- E6. apply (IH _ q qm); rewrite ?E5, ?E6, ?E7, ?E8, ?Ec; assumption.
+      rewrite <- E5, <- E6, <- E9. apply (IH _ q qm); rewrite ?E5, ?E6, ?E7, ?E8, ?E9, ?Ec; assumption.
     + (* Close *)
       destruct (d_closed s) eqn:Ec.
       { cbn [fst snd app]. apply (IH s q qm); [rewrite Ec; discriminate | rewrite Ec; exact Hk]. }
-      destruct (flush_frame true s) as (E2 & E3 & E4 & E5 & E6 & E7 & E8).
+      destruct (flush_frame true s) as (E2 & E3 & E4 & E5 & E6 & E7 & E8 & E9).
       cbn [fst snd].
       rewrite !consumed_of_app, !metas_of_app, !metaacks_of_app, E2, E3, E4.
       cbn [app consumed_of metas_of metaacks_of]. unfold set_closed.
       set (s' := fst (flush true s)) in *.
-      specialize (IH (mkD (d_var s') (d_cap s') (d_tabs s') (d_bufs s') (d_inbox s') (d_metabox s') true) q qm).
-      cbn [d_closed d_cap d_inbox d_metabox] in IH. rewrite E5, E6, E8 in IH. rewrite E5, E6, E8.
+      specialize (IH (mkD (d_var s') (d_subs s') (d_cap s') (d_tabs s') (d_bufs s') (d_inbox s') (d_metabox s') true) q qm).
+      cbn [d_closed d_cap d_subs d_inbox d_metabox] in IH. rewrite E5, E6, E8, E9 in IH. rewrite E5, E6, E8, E9.
       apply IH; [discriminate | exact Hk].
 Qed.
 
-Lemma once_in_order v cap pre evs :
-  keeps_up cap 0 0 false evs = true ->
-  let r := drun (dinit v cap pre) evs in
+Lemma once_in_order v fl cap pre evs :
+  keeps_up fl cap 0 0 false evs = true ->
+  let r := drun (dinit v fl cap pre) evs in
   arrived_chunks evs = consumed_of (snd r) ++ d_inbox (fst r) /\
-  map meta_pub (arrived_metas evs) = returned_metas (metas_of (snd r)) ++ map meta_pub (d_metabox (fst r)) /\
-  map m_req (arrived_metas evs) = metaacks_of (snd r) ++ map m_req (d_metabox (fst r)).
+  map meta_pub (arrived_metas fl evs) = returned_metas (metas_of (snd r)) ++ map meta_pub (d_metabox (fst r)) /\
+  map m_req (arrived_metas fl evs) = metaacks_of (snd r) ++ map m_req (d_metabox (fst r)).
 Proof.
-  intros Hk. apply (fifo_order evs (dinit v cap pre) 0 0); [cbn; auto | exact Hk].
+  intros Hk. apply (fifo_order evs (dinit v fl cap pre) 0 0); [cbn; auto | exact Hk].
 Qed.
 
 (* ---------- C04: acknowledgements and announcements ---------- *)
 
-Lemma conservation v cap pre evs :
+Lemma conservation v fl cap pre evs :
   small_history pre evs ->
-  let r := drun (dinit v cap pre) evs in
+  let r := drun (dinit v fl cap pre) evs in
   ack_results (eff_acks (v_keep v) (snd r)) ++ b_res (d_bufs (fst r)) = read_results (snd r) /\
   ack_ups (eff_acks (v_keep v) (snd r)) ++ b_up (d_bufs (fst r)) = minted_ups (snd r) /\
   ack_ids (eff_acks (v_keep v) (snd r)) ++ b_id (d_bufs (fst r)) = minted_ids (snd r).
 Proof.
-  intros H r. destruct (run_init v cap pre evs H) as (_ & R).
+  intros H r. destruct (run_init v fl cap pre evs H) as (_ & R).
   pose proof (r_br _ _ _ R) as H1. pose proof (r_bu _ _ _ R) as H2. pose proof (r_bi _ _ _ R) as H3.
   unfold d_keep in H1, H2, H3. cbn [dinit d_bufs b_res b_up b_id app d_var] in H1, H2, H3. subst r. auto.
 Qed.
 
-Lemma ack_numbering v cap pre evs :
+Lemma ack_numbering v fl cap pre evs :
   small_history pre evs ->
-  let r := drun (dinit v cap pre) evs in
+  let r := drun (dinit v fl cap pre) evs in
   map ack_id (acks_of (snd r)) = nseq 1 (length (acks_of (snd r))) /\
   b_ackid (d_bufs (fst r)) = N.of_nat (length (acks_of (snd r))).
 Proof.
-  intros H r. destruct (run_init v cap pre evs H) as (_ & R).
+  intros H r. destruct (run_init v fl cap pre evs H) as (_ & R).
   pose proof (r_ackids _ _ _ R) as H1. pose proof (r_ack _ _ _ R) as H2.
   cbn [dinit d_bufs b_ackid] in H1, H2. subst r. split; [exact H1 | rewrite H2; lia].
 Qed.
 
-Lemma alias_injective v cap pre evs :
+Lemma alias_injective v fl cap pre evs :
   small_history pre evs ->
-  let outs := snd (drun (dinit v cap pre) evs) in
+  let outs := snd (drun (dinit v fl cap pre) evs) in
   NoDup (keys (minted_ups outs)) /\ NoDup (keys (prereg_table 0 pre ++ minted_ids outs)).
 Proof.
-  intros H outs. destruct (init_ok v cap pre evs H) as (H1 & H2 & H3 & H4).
+  intros H outs. destruct (init_ok v fl cap pre evs H) as (H1 & H2 & H3 & H4).
   destruct (run_main evs _ H1 H2) as ([[_ And _ Und] _] & R).
   pose proof (r_tu _ _ _ R) as Etu. pose proof (r_ti _ _ _ R) as Eti. rewrite H3 in Etu. rewrite H4 in Eti.
   cbn [app] in Etu. fold outs in Etu, Eti. split.
@@ -902,7 +907,7 @@ Proof.
   assert (Hs : sent_acks_of (snd (dstep s e)) = acks_of (snd (dstep s e)) /\ all_sent evs = true).
   { destruct e as [c|m|pick|pick|sent|]; cbn [all_sent dstep] in *.
     - split; [|exact H]. destruct (d_closed s); [reflexivity|]. destruct (_ <? _); reflexivity.
-    - split; [|exact H]. destruct (d_closed s); [reflexivity|]. destruct (_ <? _); reflexivity.
+    - split; [|exact H]. destruct (d_closed s); [reflexivity|]. destruct (subscribed _ _ && _); reflexivity.
     - split; [|exact H]. destruct (d_closed s && (v_strict (d_var s) || negb pick)); [reflexivity|]. destruct (d_inbox s) as [|c rest]; [reflexivity|].
       destruct (do_read_shape s c rest) as (res & err & nu & ni & s' & -> & _). reflexivity.
     - split; [|exact H]. destruct (d_closed s && (v_strict (d_var s) || negb pick)); [reflexivity|]. destruct (d_metabox s); reflexivity.
@@ -937,7 +942,7 @@ Proof.
   assert (Hs : closereqs_of (snd (dstep s e)) = 0 /\ d_closed (fst (dstep s e)) = false).
   { destruct e as [c|m|pick|pick|sent|]; try discriminate He; cbn [dstep]; rewrite ?Hc; cbn [fst snd closereqs_of]; auto.
     - destruct (_ <? _); cbn; auto.
-    - destruct (_ <? _); cbn; auto.
+    - destruct (subscribed _ _ && _); cbn; auto.
     - cbn [andb]. destruct (d_inbox s) as [|c rest]; [cbn; auto|].
       destruct (do_read_shape s c rest) as (res & err & nu & ni & s' & -> & _ & _ & S3 & _).
       cbn [fst snd acks_of closereqs_of]. rewrite S3. auto.
@@ -953,9 +958,9 @@ Proof. induction a as [|e a IH]; [reflexivity|]. destruct e; cbn [app wte]; rewr
 Lemma small_prefix pre a b : small_history pre (a ++ b) -> small_history pre a.
 Proof. intros [H1 H2]. rewrite app_length in H1. rewrite wte_app in H2. split; lia. Qed.
 
-Lemma close_order v cap pre evs post :
+Lemma close_order v fl cap pre evs post :
   small_history pre (evs ++ Close :: post) -> has_close evs = false ->
-  let s0 := dinit v cap pre in
+  let s0 := dinit v fl cap pre in
   let o1 := snd (drun s0 evs) in
   exists mid tail,
     snd (drun s0 (evs ++ Close :: post)) = o1 ++ mid ++ [OCloseReq] ++ tail /\
@@ -969,16 +974,16 @@ Proof.
   assert (Hs1 : small_history pre (evs ++ [Close])).
   { replace (evs ++ Close :: post) with ((evs ++ [Close]) ++ post) in Hs by (now rewrite <- app_assoc).
     eapply small_prefix; exact Hs. }
-  destruct (init_ok v cap pre _ Hs1) as (I1 & I2 & _).
+  destruct (init_ok v fl cap pre _ Hs1) as (I1 & I2 & _).
   pose proof (small_prefix _ _ _ Hs1) as Hs0.
-  destruct (conservation v cap pre evs Hs0) as (C1 & C2 & C3).
-  destruct (run_init v cap pre evs Hs0) as (Hinv1 & R1).
+  destruct (conservation v fl cap pre evs Hs0) as (C1 & C2 & C3).
+  destruct (run_init v fl cap pre evs Hs0) as (Hinv1 & R1).
   destruct (open_stays evs s0 Hh eq_refl) as (K1 & K2).
   fold s0 in C1, C2, C3, Hinv1, R1. set (s1 := fst (drun s0 evs)) in *. fold o1 in C1, C2, C3, K1, R1.
   (* the budget at s1 leaves room for one more ack id *)
   assert (Hb : b_ackid (d_bufs s1) + 1 < two32).
-  { destruct (ack_numbering v cap pre evs Hs0) as (_ & Ea). fold s0 in Ea. fold s1 in Ea. fold o1 in Ea.
-    destruct (run_init v cap pre (evs ++ [Close]) Hs1) as (_ & R2).
+  { destruct (ack_numbering v fl cap pre evs Hs0) as (_ & Ea). fold s0 in Ea. fold s1 in Ea. fold o1 in Ea.
+    destruct (run_init v fl cap pre (evs ++ [Close]) Hs1) as (_ & R2).
     destruct Hs1 as [Hl _]. rewrite app_length in Hl. cbn [length] in Hl.
     assert (N.of_nat (length (acks_of o1)) <= N.of_nat (length evs)); [|lia].
     clear -o1. subst o1. generalize s0. induction evs as [|e evs IH]; intros s; [cbn; lia|].
@@ -986,7 +991,7 @@ Proof.
     assert (length (acks_of (snd (dstep s e))) <= 1)%nat.
     { destruct e as [c|m|pick|pick|sent|]; cbn [dstep].
       - destruct (d_closed s); [cbn; lia|]. destruct (_ <? _); cbn; lia.
-      - destruct (d_closed s); [cbn; lia|]. destruct (_ <? _); cbn; lia.
+      - destruct (d_closed s); [cbn; lia|]. destruct (subscribed _ _ && _); cbn; lia.
       - destruct (d_closed s && (v_strict (d_var s) || negb pick)); [cbn; lia|]. destruct (d_inbox s) as [|c rest]; [cbn; lia|].
         destruct (do_read_shape s c rest) as (res & err & nu & ni & s' & -> & _). cbn; lia.
       - destruct (d_closed s && (v_strict (d_var s) || negb pick)); [cbn; lia|]. destruct (d_metabox s); cbn; lia.
@@ -1120,7 +1125,7 @@ Lemma step_tabs_frame s e :
 Proof.
   destruct e as [c|m|pick|pick|sent|]; cbn [dstep].
   - right. destruct (d_closed s); [auto|]. destruct (_ <? _); auto.
-  - right. destruct (d_closed s); [auto|]. destruct (_ <? _); auto.
+  - right. destruct (d_closed s); [auto|]. destruct (subscribed _ _ && _); auto.
   - destruct (d_closed s && (v_strict (d_var s) || negb pick)); [right; auto|]. destruct (d_inbox s) as [|c rest]; [right; auto|].
     left. exists pick, c, rest. auto.
   - right. destruct (d_closed s && (v_strict (d_var s) || negb pick)); [auto|]. destruct (d_metabox s); auto.
@@ -1204,9 +1209,9 @@ Proof.
   intros k [<-|[]]. cbn [fst]. lia.
 Qed.
 
-Lemma func_init v cap pre evs :
+Lemma func_init v fl cap pre evs :
   small_history pre evs ->
-  let s0 := dinit v cap pre in
+  let s0 := dinit v fl cap pre in
   let r := drun s0 evs in
   (NoDup pre -> NoDup (vals (prereg_table 0 pre ++ minted_ids (snd r)))) /\
   (v_fx v = true -> NoDup (vals (minted_ups (snd r)))) /\
@@ -1214,7 +1219,7 @@ Lemma func_init v cap pre evs :
      (forall id, In id (full_ids (ck_groups c)) -> In id (vals (prereg_table 0 pre ++ minted_ids (snd r)))) /\
      (v_fx v = true -> forall i, ck_up c = UFull i -> In i (vals (minted_ups (snd r))))).
 Proof.
-  intros H s0 r. destruct (init_ok v cap pre evs H) as (H1 & H2 & H3 & H4).
+  intros H s0 r. destruct (init_ok v fl cap pre evs H) as (H1 & H2 & H3 & H4).
   assert (Hr0 : rinv (d_tabs s0)).
   { unfold s0, dinit. cbn [d_tabs]. apply prereg_rinv.
     - split; intros id [].
@@ -1242,30 +1247,30 @@ Proof.
     cbn [orb fst set_bufs d_bufs b_up b_id b_res]; auto.
 Qed.
 
-Lemma ack_exactly_once v cap pre evs :
+Lemma ack_exactly_once v fl cap pre evs :
   small_history pre evs -> v_keep v = true ->
-  let r := drun (dinit v cap pre) evs in
+  let r := drun (dinit v fl cap pre) evs in
   ack_results (sent_acks_of (snd r)) ++ b_res (d_bufs (fst r)) = read_results (snd r) /\
   ack_ups (sent_acks_of (snd r)) ++ b_up (d_bufs (fst r)) = minted_ups (snd r) /\
   ack_ids (sent_acks_of (snd r)) ++ b_id (d_bufs (fst r)) = minted_ids (snd r).
 Proof.
-  intros H Hk r. pose proof (conservation v cap pre evs H) as C. rewrite Hk in C. exact C.
+  intros H Hk r. pose proof (conservation v fl cap pre evs H) as C. rewrite Hk in C. exact C.
 Qed.
 
 (* after a flush that succeeds nothing is pending: every chunk returned so far has been
    acknowledged and every alias issued so far announced - including what earlier failed sends
    had handed over in vain *)
-Lemma acked_after_flush v cap pre evs :
+Lemma acked_after_flush v fl cap pre evs :
   small_history pre (evs ++ [AckTick true]) -> v_keep v = true -> has_close evs = false ->
-  let r := drun (dinit v cap pre) (evs ++ [AckTick true]) in
+  let r := drun (dinit v fl cap pre) (evs ++ [AckTick true]) in
   ack_results (sent_acks_of (snd r)) = read_results (snd r) /\
   ack_ups (sent_acks_of (snd r)) = minted_ups (snd r) /\
   ack_ids (sent_acks_of (snd r)) = minted_ids (snd r).
 Proof.
-  intros H Hk Hh r. destruct (ack_exactly_once v cap pre _ H Hk) as (C1 & C2 & C3). fold r in C1, C2, C3.
+  intros H Hk Hh r. destruct (ack_exactly_once v fl cap pre _ H Hk) as (C1 & C2 & C3). fold r in C1, C2, C3.
   assert (E : b_up (d_bufs (fst r)) = [] /\ b_id (d_bufs (fst r)) = [] /\ b_res (d_bufs (fst r)) = []).
   { unfold r. rewrite drun_app. cbn [fst]. rewrite drun_cons. cbn [fst drun dstep].
-    destruct (open_stays evs (dinit v cap pre) Hh eq_refl) as (_ & ->). apply flush_true_empty. }
+    destruct (open_stays evs (dinit v fl cap pre) Hh eq_refl) as (_ & ->). apply flush_true_empty. }
   destruct E as (E1 & E2 & E3). rewrite E1 in C2. rewrite E2 in C3. rewrite E3 in C1.
   rewrite app_nil_r in C1, C2, C3. auto.
 Qed.
@@ -1284,20 +1289,20 @@ Proof.
   destruct Hst as [(-> & -> & -> & ->)|(-> & -> & -> & ->)]; destruct (IH s Hc Hs) as (-> & -> & I3); cbn [app returned_metas]; auto.
 Qed.
 
-Lemma no_read_after_close v cap pre evs post :
+Lemma no_read_after_close v fl cap pre evs post :
   v_strict v = true ->
-  let s1 := fst (drun (dinit v cap pre) (evs ++ [Close])) in
+  let s1 := fst (drun (dinit v fl cap pre) (evs ++ [Close])) in
   read_results (snd (drun s1 post)) = [] /\ consumed_of (snd (drun s1 post)) = [] /\
   returned_metas (metas_of (snd (drun s1 post))) = [].
 Proof.
   intros Hs s1. apply closed_no_read.
   - unfold s1. rewrite drun_app. cbn [fst]. rewrite drun_cons. cbn [fst drun dstep].
-    destruct (d_closed (fst (drun (dinit v cap pre) evs))) eqn:Ec; [exact Ec | reflexivity].
+    destruct (d_closed (fst (drun (dinit v fl cap pre) evs))) eqn:Ec; [exact Ec | reflexivity].
   - assert (G : forall l s, d_var (fst (drun s l)) = d_var s).
     { induction l as [|e l IH]; intros s; [reflexivity|]. rewrite drun_cons. cbn [fst]. rewrite IH.
       destruct e as [c|m|pick|pick|sent|]; cbn [dstep].
       - destruct (d_closed s); [reflexivity|]. destruct (_ <? _); reflexivity.
-      - destruct (d_closed s); [reflexivity|]. destruct (_ <? _); reflexivity.
+      - destruct (d_closed s); [reflexivity|]. destruct (subscribed _ _ && _); reflexivity.
       - destruct (d_closed s && _); [reflexivity|]. destruct (d_inbox s) as [|c rest]; [reflexivity|].
         unfold do_read. destruct (resolve_up _ _); [destruct (resolve_groups _ _)|]; reflexivity.
       - destruct (d_closed s && _); [reflexivity|]. destruct (d_metabox s); reflexivity.
@@ -1317,11 +1322,11 @@ Definition f4_witness : list dev :=
   [Arrive (mkChunk 1 (UFull 7) 1 []); Arrive (mkChunk 2 (UFull 7) 2 []); Read false; Read false; AckTick true].
 
 Lemma f4_two_aliases :
-  ack_ups (sent_acks_of (snd (drun (dinit former_f4 inbox_cap []) f4_witness))) = [(1, 7); (2, 7)].
+  ack_ups (sent_acks_of (snd (drun (dinit former_f4 [] inbox_cap []) f4_witness))) = [(1, 7); (2, 7)].
 Proof. vm_compute. reflexivity. Qed.
 
 Lemma f4_repaired :
-  ack_ups (sent_acks_of (snd (drun (dinit current inbox_cap []) f4_witness))) = [(1, 7)].
+  ack_ups (sent_acks_of (snd (drun (dinit current [] inbox_cap []) f4_witness))) = [(1, 7)].
 Proof. vm_compute. reflexivity. Qed.
 
 (* F14 (former code): flushAck emptied the buffers before the send; when the send failed the
@@ -1330,12 +1335,12 @@ Definition f14_witness : list dev :=
   [Arrive (mkChunk 1 (UFull 7) 1 []); Read false; AckTick false; AckTick true; Close].
 
 Lemma f14_result_lost :
-  let r := drun (dinit former_f14 inbox_cap []) f14_witness in
+  let r := drun (dinit former_f14 [] inbox_cap []) f14_witness in
   read_results (snd r) = [(7, 1)] /\ ack_results (sent_acks_of (snd r)) = [] /\ b_res (d_bufs (fst r)) = [].
 Proof. vm_compute. repeat split. Qed.
 
 Lemma f14_repaired :
-  let r := drun (dinit current inbox_cap []) f14_witness in
+  let r := drun (dinit current [] inbox_cap []) f14_witness in
   read_results (snd r) = [(7, 1)] /\ sent_acks_of (snd r) = [(2, [(1, 7)], [], [(7, 1)])] /\ b_res (d_bufs (fst r)) = [].
 Proof. vm_compute. repeat split. Qed.
 
@@ -1345,11 +1350,11 @@ Definition rac_witness : list dev :=
   [Arrive (mkChunk 1 (UFull 7) 1 []); Arrive (mkChunk 2 (UAlias 1) 2 []); Read false; Close; Read true].
 
 Lemma read_after_close_unacked : forall later,
-  let r := drun (dinit former_f32 inbox_cap []) (rac_witness ++ later) in
+  let r := drun (dinit former_f32 [] inbox_cap []) (rac_witness ++ later) in
   exists tail, read_results (snd r) = [(7, 1); (7, 2)] ++ tail /\ ack_results (acks_of (snd r)) = [(7, 1)].
 Proof.
   intros later r. subst r. rewrite drun_app.
-  set (r1 := drun (dinit former_f32 inbox_cap []) rac_witness).
+  set (r1 := drun (dinit former_f32 [] inbox_cap []) rac_witness).
   assert (E1 : read_results (snd r1) = [(7, 1); (7, 2)]) by (vm_compute; reflexivity).
   assert (E2 : ack_results (acks_of (snd r1)) = [(7, 1)]) by (vm_compute; reflexivity).
   assert (E3 : d_closed (fst r1) = true) by (vm_compute; reflexivity).
@@ -1359,7 +1364,7 @@ Proof.
 Qed.
 
 Lemma rac_repaired :
-  reads_of (snd (drun (dinit current inbox_cap []) rac_witness)) =
+  reads_of (snd (drun (dinit current [] inbox_cap []) rac_witness)) =
     [(Some (1, 7, []), 0, [(1, 7)], []); (None, 4, [], [])].
 Proof. vm_compute. reflexivity. Qed.
 
@@ -1375,50 +1380,50 @@ Proof.
     destruct Hr as [_ Hr]. eapply IH; eassumption.
 Qed.
 
-Lemma unknown_alias_error v cap pre evs c res err nu ni :
+Lemma unknown_alias_error v fl cap pre evs c res err nu ni :
   small_history pre evs ->
-  let outs := snd (drun (dinit v cap pre) evs) in
+  let outs := snd (drun (dinit v fl cap pre) evs) in
   In (ORead (Some c) res err nu ni) outs ->
   ~ aliases_known (minted_ups outs) (prereg_table 0 pre ++ minted_ids outs) c ->
   res = None /\ (err = 1 \/ err = 2).
 Proof.
   intros H outs Hin Hk. destruct res as [rc|].
-  - exfalso. apply Hk. exact (proj1 (delivered_known v cap pre evs c rc err nu ni H Hin)).
-  - split; [reflexivity|]. eapply resolved_in_none; [exact (resolution v cap pre evs H) | exact Hin].
+  - exfalso. apply Hk. exact (proj1 (delivered_known v fl cap pre evs c rc err nu ni H Hin)).
+  - split; [reflexivity|]. eapply resolved_in_none; [exact (resolution v fl cap pre evs H) | exact Hin].
 Qed.
 
-Lemma meta_per_source v cap pre evs src :
-  keeps_up cap 0 0 false evs = true ->
-  let r := drun (dinit v cap pre) evs in
-  filter (fun x : N * N => fst x =? src) (map meta_pub (arrived_metas evs)) =
+Lemma meta_per_source v fl cap pre evs src :
+  keeps_up fl cap 0 0 false evs = true ->
+  let r := drun (dinit v fl cap pre) evs in
+  filter (fun x : N * N => fst x =? src) (map meta_pub (arrived_metas fl evs)) =
   filter (fun x : N * N => fst x =? src) (returned_metas (metas_of (snd r))) ++
   filter (fun x : N * N => fst x =? src) (map meta_pub (d_metabox (fst r))).
 Proof.
-  intros Hk r. destruct (once_in_order v cap pre evs Hk) as (_ & E & _). fold r in E.
+  intros Hk r. destruct (once_in_order v fl cap pre evs Hk) as (_ & E & _). fold r in E.
   rewrite E. apply filter_app.
 Qed.
 
 (* former code (failed sends lose their buffers): exactly once as long as no send fails *)
-Lemma ack_exactly_once_former v cap pre evs :
+Lemma ack_exactly_once_former v fl cap pre evs :
   small_history pre evs -> all_sent evs = true ->
-  let r := drun (dinit v cap pre) evs in
+  let r := drun (dinit v fl cap pre) evs in
   ack_results (sent_acks_of (snd r)) ++ b_res (d_bufs (fst r)) = read_results (snd r).
 Proof.
-  intros H Hs r. subst r. pose proof (proj1 (conservation v cap pre evs H)) as C.
+  intros H Hs r. subst r. pose proof (proj1 (conservation v fl cap pre evs H)) as C.
   unfold eff_acks in C. rewrite (sent_all evs _ Hs). destruct (v_keep v); [rewrite (sent_all evs _ Hs) in C|]; exact C.
 Qed.
 
 (* ack ids: every ack handed to the transport takes the next id; the accepted ones therefore carry
    strictly increasing ids (a failed send consumes its id) *)
-Lemma ack_ids_seq v cap pre evs :
+Lemma ack_ids_seq v fl cap pre evs :
   small_history pre evs ->
-  let r := drun (dinit v cap pre) evs in
+  let r := drun (dinit v fl cap pre) evs in
   seq_from 1 (map ack_id (acks_of (snd r))) = true /\
   map ack_id (acks_of (snd r)) = nseq 1 (length (acks_of (snd r))) /\
   NoDup (map ack_id (acks_of (snd r))) /\
   b_ackid (d_bufs (fst r)) = N.of_nat (length (acks_of (snd r))).
 Proof.
-  intros H r. destruct (ack_numbering v cap pre evs H) as (E1 & E2). fold r in E1, E2.
+  intros H r. destruct (ack_numbering v fl cap pre evs H) as (E1 & E2). fold r in E1, E2.
   rewrite E1. repeat apply conj; auto; [apply seq_from_nseq | apply nseq_nodup].
 Qed.
 
@@ -1450,12 +1455,12 @@ Proof.
   apply andb_true_iff. split; [now apply N.ltb_lt | apply IH; lia].
 Qed.
 
-Lemma sent_ids_increase v cap pre evs :
+Lemma sent_ids_increase v fl cap pre evs :
   small_history pre evs ->
-  strictly_inc 0 (map ack_id (sent_acks_of (snd (drun (dinit v cap pre) evs)))) = true.
+  strictly_inc 0 (map ack_id (sent_acks_of (snd (drun (dinit v fl cap pre) evs)))) = true.
 Proof.
-  intros H. destruct (ack_numbering v cap pre evs H) as (E1 & _).
-  set (outs := snd (drun (dinit v cap pre) evs)) in *.
+  intros H. destruct (ack_numbering v fl cap pre evs H) as (E1 & _).
+  set (outs := snd (drun (dinit v fl cap pre) evs)) in *.
   destruct (sent_sub_acks outs) as (k & K1 & K2). rewrite K2, map_map.
   apply strictly_inc_filter.
   assert (E : map (fun x : bool * ackobs => ack_id (snd x)) (combine k (acks_of outs)) = map ack_id (acks_of outs)).
